@@ -593,7 +593,15 @@ impl<H: DnsHandle> DnssecDnsHandle<H> {
         }
 
         // if it was just the root DNSKEYS with no RRSIG, we'll accept the entire set, or none
-        if dnskey_proofs.iter().all(|(proof, ..)| proof.is_secure()) {
+        //
+        // This shortcut is for trust anchors only. Keys that are merely covered by a DS record
+        // authenticate the DNSKEY RRset by signing it (RFC 4035 section 5.2); without a valid
+        // signature a subset of the zone's keys (say, the KSK without the ZSKs) must not be Secure.
+        let all_trust_anchors = rrset.records.iter().all(|r| {
+            r.try_borrow::<DNSKEY>()
+                .is_some_and(|dnskey| self.is_dnskey_in_root_store(&dnskey).is_secure())
+        });
+        if all_trust_anchors && dnskey_proofs.iter().all(|(proof, ..)| proof.is_secure()) {
             let proof = dnskey_proofs.pop().unwrap(/* This can not happen due to above test */);
             return Ok(RrsetProof {
                 proof: proof.0,
